@@ -419,7 +419,7 @@ func ruleZ4(c *Ctx) {
 		c.ok("Z4", "caller/"+funcKey(cs.Caller), cs.Instr.Pos(), la.holds(cs.Instr, "stub.Mutex", 'W'), "close() is called from "+funcKey(cs.Caller)+" with the stub lock held",
 			"close() is called with lockset "+la.describe(cs.Instr)+": it races with Start/Stop on the session fields")
 	}
-	for _, fld := range []string{"started", "conn"} {
+	for _, fld := range []string{"started", "conn", "syncReq"} {
 		okR := false
 		for _, fs := range m.fieldStores(cl, stT, fld) {
 			if isNilConst(fs.Store.Val) || isConstBool(fs.Store.Val, false) {
@@ -427,7 +427,7 @@ func ruleZ4(c *Ctx) {
 				okR = true
 			}
 		}
-		c.ok("Z4", "reset/"+fld, cl.Pos(), okR, "close() resets stub."+fld, "close() does not reset stub."+fld+": the stub cannot be started again (or reuses a dead connection)")
+		c.ok("Z4", "reset/"+fld, cl.Pos(), okR, "close() resets stub."+fld, "close() does not reset stub."+fld+": the stub cannot be started again, reuses a dead connection, or prepends the chunks of an aborted synchronization to the next one")
 	}
 	st := m.method(pkgStub, "stub", "Start")
 	// the server goroutine
